@@ -214,18 +214,11 @@ func runC10(r *Run) {
 					rb.ViolationPath(fn, instrPos(ret), "error return without rollback", "Start returns an error but the transaction stays in the client table: a later message with that ID invokes a handler whose Start failed", c.Witness(fn, ret))
 					return
 				}
-				// once the agent knows the transaction (armed: its Start returned nil) a tick, a response
-				// or Close can complete it at any moment; an error may then be reported only if this call
-				// itself took the registration back - the delete must have reported that it found the entry
-				armed := false
-				for _, ac := range agentStarts {
-					if c.NilState(ac) == +1 {
-						armed = true
-					}
-				}
-				if !armed {
-					return
-				}
+				// once the transaction is in the client table, an event carrying its ID - a tick, Close, or a
+				// (duplicate) message, which the agent's Process passes on whether or not it knows the ID - can
+				// complete it at any moment; an error may then be reported only if this call itself took the
+				// registration back: the delete must have reported that it found the entry
+				_ = agentStarts
 				confirmed := false
 				for _, d := range dels {
 					key, pol := k.condKey(d)
@@ -235,7 +228,7 @@ func runC10(r *Run) {
 				}
 				if !confirmed && !rep[ret] {
 					rep[ret] = true
-					rb.ViolationPath(fn, instrPos(ret), "error return after an unconfirmed rollback", "the transaction was armed in the agent, so a timer tick, a response or Close may already have completed it (handler invoked) when the write fails; Start reports an error without knowing that its own delete still found the entry: the handler is invoked although Start failed, and Do returns without waiting for it (its pooled waiter is recycled while marked processed)", c.Witness(fn, ret))
+					rb.ViolationPath(fn, instrPos(ret), "error return after an unconfirmed rollback", "the transaction was published in the client table, so a timer tick, a message with its ID or Close may already have completed it (handler invoked) when a later step fails; Start reports an error without knowing that its own delete still found the entry: the handler is invoked although Start failed, and Do returns without waiting for it (its pooled waiter is recycled while marked processed)", c.Witness(fn, ret))
 				}
 			}
 			q.Run()
@@ -330,6 +323,14 @@ func checkCallbackPaths(r *Run, rc *RuleCtx, m *clientModel, k *keyer) {
 	)
 	var regCall, agentCall *ssa.Call
 	var writeErr ssa.Value
+	const confirmShift = 8
+	var delCalls []*ssa.Call
+	eachInstr(fn, func(b *ssa.BasicBlock, i int, in ssa.Instruction) {
+		if c2, ok := in.(*ssa.Call); ok && callsFn(c2, m.Del) {
+			delCalls = append(delCalls, c2)
+		}
+	})
+	nTaken := 0
 	q := &PathQuery{P: p, Fn: fn, From: del, K: k}
 	repH := map[ssa.Instruction]bool{}
 	q.Step = func(in ssa.Instruction, deferred bool, st uint64, c *PathCtx) (uint64, bool) {
@@ -342,6 +343,16 @@ func checkCallbackPaths(r *Run, rc *RuleCtx, m *clientModel, k *keyer) {
 				return st | regBit, false
 			}
 			if callsFn(c2, m.Del) {
+				// the entry was (successfully) published again: from then on a response or Close can
+				// complete and recycle it at any moment, so whoever goes on to complete it must know
+				// that this delete still found it
+				if st&regBit != 0 && regCall != nil && c.NilState(regCall) == +1 {
+					for i, d := range delCalls {
+						if d == c2 && i < 8 {
+							st |= 1 << uint(confirmShift+i)
+						}
+					}
+				}
 				return st &^ regBit, false
 			}
 			if ifaceCallOnField(c2, m.Agent, "Start") {
@@ -365,6 +376,15 @@ func checkCallbackPaths(r *Run, rc *RuleCtx, m *clientModel, k *keyer) {
 				if st&regBit != 0 && (regCall == nil || c.NilState(regCall) != -1) && !repH[in] {
 					repH[in] = true
 					rc.ViolationPath(fn, instrPos(in), "completion while registered", "the transaction is completed (and returned to the pool) while it is still in the client table: a late response for that ID is delivered to whatever transaction recycles the object", c.Witness(fn, in))
+				}
+				for i, d := range delCalls {
+					if i < 8 && st&(1<<uint(confirmShift+i)) != 0 {
+						key, pol := k.condKey(d)
+						if v, known := c.Known(key); !(known && v == pol) && !repH[in] {
+							repH[in] = true
+							rc.ViolationPath(fn, instrPos(in), "completion after an unconfirmed removal", "the transaction had been published again (re-registered for a retransmission); a response or Close may have completed and recycled it before this removal, which does not check that it still found the entry: the object is completed and pooled twice, and the transaction that next takes it from the pool gets this error and loses its stored request", c.Witness(fn, in))
+						}
+					}
 				}
 				if st&h1 != 0 {
 					return st | h2, false
@@ -397,6 +417,16 @@ func checkCallbackPaths(r *Run, rc *RuleCtx, m *clientModel, k *keyer) {
 			nRereg++
 			return
 		}
+		// the removal of the re-published entry found nothing: somebody else completed it
+		for i, d := range delCalls {
+			if i < 8 && st&(1<<uint(confirmShift+i)) != 0 {
+				key, pol := k.condKey(d)
+				if v, known := c.Known(key); known && v != pol {
+					nTaken++
+					return
+				}
+			}
+		}
 		if !rep[ret] {
 			rep[ret] = true
 			rc.ViolationPath(fn, instrPos(ret), "removed but neither completed nor re-registered", "a transaction that was removed from the client table is dropped: its handler is never invoked", c.Witness(fn, ret))
@@ -406,7 +436,7 @@ func checkCallbackPaths(r *Run, rc *RuleCtx, m *clientModel, k *keyer) {
 	if q.Exhausted {
 		rc.Violation(fn, fn.Pos(), "path exploration exhausted", "undecided")
 	}
-	rc.Instance(fnName(fn), true, map[string]interface{}{"fn": fnName(fn), "completing_paths": nDone, "re_registering_paths": nRereg})
+	rc.Instance(fnName(fn), true, map[string]interface{}{"fn": fnName(fn), "completing_paths": nDone, "re_registering_paths": nRereg, "taken_by_another_party_paths": nTaken})
 	if nDone == 0 || nRereg == 0 {
 		rc.Violation(fn, fn.Pos(), "path classes", fmt.Sprintf("expected both completing and re-registering paths, found %d and %d: the callback's structure is not recognised (undecided)", nDone, nRereg))
 	}
